@@ -24,10 +24,16 @@ ASSUMPTIONS = [
 ]
 
 
-def model(h, cls, **attrs):
-    a = dict(features=[], fixed_effects={}, add_intercept=True, lambda_=h.real("lambda_"), seed=4191, model_settings={}, robust=False)
-    a.update(attrs)
-    return h.obj(cls, **a)
+def model(h, cls, **settings):
+    """the model object as the client creates it: the REAL __init__ chain is executed on the settings dict"""
+    from pyvc import source
+    from pyvc.interp import ClassRef
+
+    st = dict(features=[], fixed_effects={}, lambda_=h.real("lambda_"))
+    st.update(settings)
+    parts = cls.split(".")
+    mod = source.module(".".join(parts[:-1]))
+    return ClassRef(mod, mod.classes[parts[-1]]).instantiate(h.interp, [], {"model_settings": st})
 
 
 def _isint(t):
@@ -83,7 +89,10 @@ def uniform_swing(h):
     mx = z3.If(x >= t.res, x, t.res)
     h.ensures("one_common_factor", z3.Implies(rows, preds.t == z3.ToReal(round_half_even_t(mx))))
     # rounding commutes with the floor because the partial count is a whole number
-    h.ensures("round_then_floor", z3.Implies(rows, preds.t == z3.If(z3.ToReal(round_half_even_t(x)) >= t.res, z3.ToReal(round_half_even_t(x)), t.res)))
+    # "rounded, then floored" (statement) vs "floored, then rounded" (code): equal because the partial count is a
+    # whole number -- lemma over an arbitrary real X and integer r, instantiated at X = (1+m)*last, r = results
+    X = z3.Real("X_any")
+    h.lemma("lemma.round_and_floor_commute", z3.ToReal(round_half_even_t(z3.If(X >= t.res, X, t.res))) == z3.If(z3.ToReal(round_half_even_t(X)) >= t.res, z3.ToReal(round_half_even_t(X)), t.res))
 
 
 def popcorr_contract(interp, self, conformalization_data, scores, correction_quantile, estimand):
@@ -160,3 +169,72 @@ def _holdout(h, t):
     # matrix over the non-reporting rows yields the same term
     fr = theory_ext.XFrame(t.nonrep.axis, {"<design>": V(z3.RealVal(0), (t.nonrep.axis,))}, t.nonrep.index, None)
     return theory_ext.FrameMatrix(fr)
+
+
+def _np_agg(aggname, keys):
+    @unit("C03", f"nonparametric.aggregate_intervals.{aggname}", fns=[f"{NP}.get_aggregate_prediction_intervals", f"{BASE}._get_reporting_aggregate_votes"])
+    def agg(h):
+        alpha = 0.9
+        lo_s, up_s = f"lower_{alpha}_turnout", f"upper_{alpha}_turnout"
+        t = Three(h, "turnout", int_extra=(lo_s, up_s, "pred_turnout"))
+        lo_u, up_u = t.nonrep.col(lo_s).t, t.nonrep.col(up_s).t
+        # what add_unit_intervals wrote on the other two frames (proved in unit `model_results`)
+        for f_ in (t.rep, t.third):
+            f_.cols[lo_s] = f_.cols["results_turnout"]
+            f_.cols[up_s] = f_.cols["results_turnout"]
+            f_.cols["pred_turnout"] = f_.cols["results_turnout"]
+        # unit-level postconditions of get_unit_prediction_intervals (C03.nonparametric.unit_intervals)
+        h.requires("unit_bounds", z3.Implies(t.N, z3.And(lo_u >= t.res, up_u >= t.res)))
+        self = model(h, NP)
+        upi = NamedTuple("PredictionIntervals", ["lower", "upper", "conformalization"], [None, None, "conformalization-data"])
+        # the client's sequence on ONE model object: aggregate predictions first, then the intervals
+        kind, est = h.call_method(self, "get_aggregate_predictions", t.rep, t.nonrep, t.third, list(keys), "turnout")
+        if kind == "raise":
+            return h.fail("predictions.no_raise", f"raised {est}")
+        kind, res = h.call_method(self, "get_aggregate_prediction_intervals", t.rep, t.nonrep, t.third, list(keys), alpha, upi, "turnout")
+        if kind == "raise":
+            return h.fail("no_raise", f"raised {res}")
+        lower, upper = res.lower, res.upper
+        classification = "county_classification" in keys
+        sR, dR = t.gsum("R", keys, t.res)
+        sT, dT = t.gsum("T", keys, t.res)
+        sN, dN = t.gsum("N", keys, t.res)
+        lN, dl = t.gsum("N", keys, lo_u)
+        uN, du = t.gsum("N", keys, up_u)
+        counted = sR if classification else sR + sT
+        ax = lower.axes[0]
+        rows = z3.And(*ax.facts())
+        # lemma instances (lean/FrameSums.lean): sums of whole numbers are whole, pointwise floors lift to sums
+        for d in (dR, dT, dN, dl, du):
+            sums.lemma_sum_int(h.ctx, d, name="lemma.sum_int")
+        sums.lemma_sum_mono(h.ctx, dN, dl, name="lemma.sum_mono.lower")
+        sums.lemma_sum_mono(h.ctx, dN, du, name="lemma.sum_mono.upper")
+        h.ensures("C02.lower_is_counted_plus_unit_lowers", z3.Implies(rows, lower.t == counted + lN))
+        h.ensures("C02.upper_is_counted_plus_unit_uppers", z3.Implies(rows, upper.t == counted + uN))
+        h.ensures("floor", z3.Implies(rows, z3.And(lower.t >= counted + sN, upper.t >= counted + sN)))
+        h.ensures("whole_numbers", z3.Implies(rows, z3.And(_isint(lower.t), _isint(upper.t))))
+        h.ensures("finite", lower.nan is None and upper.nan is None and lower.inf is None and upper.inf is None)
+        mR, mT, mN = t.member("R", keys), t.member("T", keys), t.member("N", keys)
+        want_dom = z3.Or(mR, mN) if classification else z3.Or(mR, mT, mN)
+        # C02: the interval columns sit on the row of their own group when add_agg_predictions assigns them positionally
+        h.ensures("C02.interval_rows_align_with_estimates_table", frames.same_rows(ax, est.axis) or frames.provably_same_rows(ax, est.axis))
+        h.ensures("C02.rows_sorted_by_group_covering_every_group", z3.And(z3.Implies(z3.And(*t.root.facts()), z3.Implies(want_dom, ax.present())), ax.order == ("sorted", tuple(keys))))
+        # zero width where nothing is outstanding
+        sums.lemma_sum_empty  # (documented: used below through the group-presence definition)
+        h.ensures("zero_width_without_nonreporting_units", z3.Implies(z3.And(rows, z3.Not(_present_N(h, t, keys))), z3.And(lower.t == counted, upper.t == counted)))
+
+    return agg
+
+
+def _present_N(h, t, keys):
+    """'group g has a non-reporting unit' as the presence predicate the code's groupby introduced"""
+    defs = h.ctx.__dict__.get("_present_defs", {})
+    mN = z3.simplify(t.member("N", keys))
+    for name, (p, member, root) in defs.items():
+        if z3.eq(z3.simplify(member), mN):
+            return p
+    raise Exception("presence predicate of the non-reporting groupby not found")
+
+
+for _n, _k in AGGS.items():
+    _np_agg(_n, _k)
